@@ -288,6 +288,35 @@ def run_case(case, seed):
                 r.close(key + ':fixed-point', vec(y), xs2, 1e-8)
             else:
                 r.fail(key + ':fixed-point:meta', str(meta_problem(y)))
+    # linearity in the right-hand side: the same system with b scaled by 1e-10 (a right-hand side of tiny norm is not zero)
+    if not binding and case['op'] in ('dense', 'diagfirst'):
+        sc_ = 1e-10
+        with r.op(key + ':tiny-rhs:call'):
+            gt = tt_from(rand_cores(rng, dims, [1] * d, max_ranks(dims), c is True))
+            bt = sc_ * b
+            yt = sle.als(op, gt, bt, repeats=1, solver=solver) if meth == 'als' else sle.mals(op, gt, bt, repeats=1, solver=solver, threshold=thr, max_rank=mr)
+            if meta_problem(yt) is None and list(yt.row_dims) == list(dims):
+                r.close(key + ':tiny-rhs:exact-at-max-rank', vec(yt) / sc_, xs, 1e-7, 'right-hand side scaled by %g' % sc_)
+    # an exact solution whose bond singular values are graded (1, 1e-3, 1e-5) with threshold 1e-8: every retained ratio lies far
+    # above the cut, so the solution must stay a fixed point up to the cut
+    if meth == 'mals' and not binding and case['op'] == 'dense' and c in (False, True) and d >= 3 and thr != 0:
+        k_ = min(3, min(max_ranks(dims)[1:-1]))
+        if k_ >= 2:
+            wts = np.array([1.0, 1e-3, 1e-5]) if k_ == 3 else np.array([1.0, 1e-5])
+            cs = []
+            for i_, m_ in enumerate(dims):
+                rl = 1 if i_ == 0 else k_; rr = 1 if i_ == d - 1 else k_
+                cr = np.zeros((rl, m_, 1, rr), dtype=complex if c else float)
+                Qi = np.linalg.qr(rng.standard_normal((m_, m_)) + (1j * rng.standard_normal((m_, m_)) if c else 0))[0]
+                for j_ in range(k_):
+                    cr[0 if i_ == 0 else j_, :, 0, 0 if i_ == d - 1 else j_] = Qi[:, j_ % m_] * (wts[j_] if i_ == 0 else 1.0)
+                cs.append(cr)
+            if all(m_ >= k_ for m_ in dims):
+                xg2 = tt_from(cs)
+                with r.op(key + ':graded-fixed-point:call'):
+                    y2 = sle.mals(op, xg2, op @ xg2, repeats=1, solver=solver, threshold=1e-8, max_rank=np.inf)
+                    if meta_problem(y2) is None and list(y2.row_dims) == list(dims):
+                        r.close(key + ':graded-fixed-point', vec(y2), vec(xg2), 1e-6, 'bond weights %s; threshold 1e-8' % wts)
     # aliased inputs: the right-hand side object itself passed as initial guess == a distinct copy passed as initial guess
     if not binding and case['op'] != 'kronint' and case['rb'] <= min(max_ranks(dims)[1:-1] + [case['rb']]):
         with r.op(key + ':aliased-guess:call'):
